@@ -44,6 +44,18 @@ CHECKS = {
               'symbols by identity). One recorded finding (control: A[p U q] hands out a tree that is not a query by itself) is '
               'excluded by exact descriptor and counted.'),
     ),
+    'C04': dict(
+        engine='oracle-server + Hypothesis model generator (harness/py/gen_model.py, prop_C04.py)',
+        technique='model-based property testing: abstract model -> XML rendering with layout noise -> parse -> projection of the document compared with the generator\'s own expected projection (builder-only exact; Document* overload with the documented invariant rewrite normalised)',
+        category='exploration',
+        text=('Generated abstract models (templates, parameters, declarations, locations, branchpoints, init, edges with all label '
+              'kinds, instantiations incl. partial and chained, system line with priorities) are rendered to XML and parsed; every '
+              'element the statement lists must appear in the document in source order, attached to the right owner, with the '
+              'right expression trees, endpoints, flags and parameter-to-argument mapping.'),
+        design_ref='DESIGN.md 4/C04',
+        note=('The generator is the reference (names unique across scopes). Types are compared through a summary (prefixes, base '
+              'kind, bounds, array sizes, record fields), expressions through canonical trees. LSC templates are not generated.'),
+    ),
     'C18': dict(
         engine='rapidcheck + exhaustive loops (harness/cpp/c18.cpp)',
         technique='exhaustive enumeration over int8_t + rapidcheck property-based testing over int32_t/double against set semantics in wide arithmetic',
